@@ -52,9 +52,9 @@ def tiling_violation(text, toks):
 
 def _shard(args):
     texts = args
+    build_repo.use_working_tree_scanner()
     from mwlib.parser.token import utoken
 
-    build_repo.use_working_tree_scanner()
     drv = Driver("c10")
     outs = drv.ask(["scan " + enc(t) for t in texts])
     span_diffs, type_diffs, viol = [], 0, []
